@@ -62,8 +62,19 @@ def compare(case, m, i):
     if i.startswith("(timeout)"):
         return True       # non-termination (e.g. a redefined macro that expands to itself) is outside the claim
     if m.startswith("(outoffuel)") or m.startswith("(model-stack-overflow)"):
-        return not (i.startswith("(panic)") or i.startswith("(abort)"))
+        # the model cannot decide: unbounded (non-tail) recursion exhausts its fuel, and the implementation's stack -
+        # outside the claim; a panic (as opposed to the abort of a stack overflow) is still a crash
+        return not i.startswith("(panic)")
     return klass(m) == klass(i)
+
+
+def _stack_exhausted(m, i):
+    """the model ran out of fuel and the implementation's process died of stack exhaustion (unbounded non-tail
+    recursion: outside the claim); the rest of the case was not run"""
+    return (m.startswith("(outoffuel)") or m.startswith("(model-stack-overflow)")) and i.startswith("(abort)")
+
+
+compare.stop = _stack_exhausted
 
 
 def batch_case(texts, kind):
@@ -110,7 +121,7 @@ def explore(ctx):
         short += ["".join(ctx.rng.choice(ALPHABET) for _ in range(ctx.rng.randint(3, 4))) for _ in range(1500)]
     add(short, "short strings")
     soup = []
-    for _ in range(1500 if ctx.quick else 60000):
+    for _ in range(5000 if ctx.quick else 60000):
         n = ctx.rng.randint(1, 12)
         toks = [ctx.rng.choice(VOCAB) for _ in range(n)]
         if ctx.rng.random() < 0.5:        # balance the parentheses
@@ -128,7 +139,7 @@ def explore(ctx):
         soup.append(" ".join(toks))
     add(soup, "token soup", per=10)
     muts = []
-    for _ in range(700 if ctx.quick else 30000):
+    for _ in range(2500 if ctx.quick else 30000):
         g = gen.Gen(ctx.rng, ticks=False, derived=True)
         forms, _ = g.program(2, 2)
         muts.append(mutate_tokens(ctx.rng, " ".join(forms)))
@@ -136,9 +147,9 @@ def explore(ctx):
     sld = open(common.REPO + "/src/interpreter/library/include/scheme/base.sld").read()
     gram = open(common.REPO + "/src/parser/grammar.sld").read()
     lib_forms = re.findall(r"\(define[^\n]*\n(?:[ \t]+[^\n]*\n)*", sld)[:60] + re.findall(r"\(define-syntax[^\n]*\n(?:[ \t]+[^\n]*\n)*", gram)
-    add([mutate_tokens(ctx.rng, ctx.rng.choice(lib_forms)) for _ in range(300 if ctx.quick else 1500)], "mutated library sources", per=2)
+    add([mutate_tokens(ctx.rng, ctx.rng.choice(lib_forms)) for _ in range(800 if ctx.quick else 1500)], "mutated library sources", per=2)
     uni = []
-    for _ in range(300 if ctx.quick else 10000):
+    for _ in range(1000 if ctx.quick else 10000):
         n = ctx.rng.randint(1, 8)
         uni.append("".join(chr(ctx.rng.choice([ctx.rng.randint(1, 31), ctx.rng.randint(127, 0x2ff), ctx.rng.randint(0x4e00, 0x4e40),
                                                0x1f600, 0xfeff, 0x2028, ord("("), ord(")"), ord("a"), ord("\""), ord("#"), ord("\\")]))
@@ -187,6 +198,11 @@ def explore(ctx):
             k = klass(o)
             kk = "value" if k == "ok" else ("error" if k.startswith("err") else k)
             outcomes[kk] = outcomes.get(kk, 0) + 1
+            if k == "abort" and (ml[2 + 2 * j].startswith("(outoffuel)") or ml[2 + 2 * j].startswith("(model-stack-overflow)")):
+                # unbounded recursion: the model runs out of fuel, the implementation out of stack (outside the claim);
+                # the process is gone, the rest of the case was not run
+                outcomes["stack exhaustion (excluded)"] = outcomes.get("stack exhaustion (excluded)", 0) + 1
+                break
             if k in ("panic", "abort"):
                 crashed += 1
                 if crashed <= 10:
